@@ -16,6 +16,7 @@ mod solver;
 mod subject;
 mod symcell;
 mod sel;
+mod shapes;
 mod term;
 mod x86;
 mod x86env;
@@ -77,6 +78,25 @@ fn main() {
             v.sort();
             for (k, w) in v {
                 println!("{:28} {}", k, w);
+            }
+        }
+        "shapes" => {
+            if std::env::var("SYMX_NOISY_PANICS").is_err() {
+                engine::install_panic_hook();
+            }
+            let secs = args.get(2).and_then(|s| s.parse().ok()).unwrap_or(30u64);
+            let honour = args.get(3).map_or(false, |s| s == "once");
+            let progs: Vec<String> = if let Some(p) = args.get(4) { vec![p.clone()] } else { corpus::gen_struct(report::seed(), 100).into_iter().chain(corpus::gen(report::seed(), 60)).filter(|p| p.contains('[')).collect() };
+            let o = shapes::run(&progs, report::seed(), secs, 4, honour);
+            println!("shapes={} consts={} paths={} optimiser_runs={} cmps={} truncated={} inconclusive={} candidates={} queries={}", o.shapes, o.symbolic_constants, o.paths, o.optimiser_runs, o.comparisons, o.truncated, o.inconclusive.len(), o.candidates.len(), o.stats.queries);
+            for s in o.inconclusive.iter().take(5) {
+                println!("INC {}", s);
+            }
+            for c in o.candidates.iter().take(8) {
+                println!("CAND {} L{} w{} {:?} input={:?} :: {}", c.backend.name(), c.level, c.width, c.program, c.input, c.note);
+            }
+            for s in o.samples.iter().take(2) {
+                println!("SAMPLE {}", s);
             }
         }
         "sel" => {
